@@ -856,7 +856,8 @@ def run_c06(ctx):
 def run_c08(ctx):
     import c08spec
     return run_family(ctx, ["srv-state"], [c08spec.mon_reactions],
-                      "srv-state: every frame sequence of length <= 2 over 23 symbols x 4 stream selectors on a fresh connection, plus seeded sequences of length 3-7 (thorough: 40000).")
+                      "srv-state: every frame sequence of length <= 2 over 23 symbols x 4 stream selectors on a fresh connection, plus seeded sequences of length 3-7 (thorough: 40000).",
+                      regress=["known/FA-c08-domain-prevunf.ops"])
 
 
 def mon_goaway_only_truth(ctx, conn):
